@@ -439,3 +439,81 @@ Definition stripped_of_b (img img' : list Z) : bool :=
               (combine (skipn (Z.to_nat (ehdr_size is64)) img) (skipn (Z.to_nat (ehdr_size is64)) img'))
   | _, _ => false
   end.
+
+(* ---------- the segment view alone ----------
+   What PT_DYNAMIC and the PT_LOAD map say, whatever the section headers (if any) say about
+   OTHER places of the file: no SHT_DYNAMIC section lies at the segment's offset (there may
+   be none at all, the section header table may be absent, or a .dynamic section elsewhere
+   may hold another array linked to another string table).  The string table of the
+   segment's array is then the one its own DT_STRTAB / DT_STRSZ designate. *)
+Definition DT_STRSZ := 10.
+
+Record seginfo := mkSeginfo {
+  si_le : bool; si_is64 : bool; si_eh : ehdr;
+  si_phdrs : list phdr; si_shdrs : list shdr;
+  si_seg : phdr; si_entries : list dent;
+  si_stroff : Z; si_strsz : Z
+}.
+
+Definition read_shdrs (le is64 : bool) (h : ehdr) (img : list Z) : option (list shdr) :=
+  if e_shoff h =? 0 then Some []
+  else if (ehdr_size is64 <=? e_shoff h) && (shdr_size is64 <=? e_shentsize h) && (0 <? e_shnum h) then
+    match read_recs (spec_Elf_Shdr le is64) img (e_shoff h) (e_shentsize h) (Z.to_nat (e_shnum h)) with
+    | Some srs => Some (map shdr_of srs)
+    | None => None
+    end
+  else None.
+
+Definition describe_seg (img : list Z) : option seginfo :=
+  match spec_open img with
+  | None => None
+  | Some (le, is64, h) =>
+      if (ehdr_size is64 <=? e_phoff h) && (phdr_size is64 <=? e_phentsize h) && (e_phnum h <? 0xffff) then
+        match read_recs (spec_Elf_Phdr le is64) img (e_phoff h) (e_phentsize h) (Z.to_nat (e_phnum h)),
+              read_shdrs le is64 h img with
+        | Some prs, Some ss =>
+            let ps := map phdr_of prs in
+            match first_where (fun p => p_type p =? PT_DYNAMIC) ps with
+            | Some seg =>
+                match dyn_table le is64 (seekz img (p_offset seg)) with
+                | Some es =>
+                    match first_val DT_STRTAB es, first_val DT_STRSZ es with
+                    | Some sp, Some sz =>
+                        match ptr_ok is64 img ps sp sz with
+                        | Some off => Some (mkSeginfo le is64 h ps ss seg es off sz)
+                        | None => None
+                        end
+                    | _, _ => None
+                    end
+                | None => None
+                end
+            | None => None
+            end
+        | _, _ => None
+        end
+      else None
+  end.
+
+Definition seg_strtab (s : seginfo) (img : list Z) : list Z :=
+  firstn (Z.to_nat (si_strsz s)) (seekz img (si_stroff s)).
+
+(* a SHT_DYNAMIC section elsewhere: well formed by itself (its link is a string table) and not at
+   the offset of any PT_DYNAMIC segment *)
+Definition foreign_dynsec_ok (ps : list phdr) (ss : list shdr) (s : shdr) : bool :=
+  negb (sh_type s =? SHT_DYNAMIC) ||
+  (match nthz ss (sh_link s) with
+   | Some st => (sh_type st =? SHT_STRTAB) || (sh_type st =? SHT_NOBITS)
+   | None => false
+   end &&
+   forallb (fun p => negb (p_type p =? PT_DYNAMIC) || negb (sh_offset s =? p_offset p)) ps).
+
+Definition seg_consistent_b (img : list Z) : bool :=
+  match describe_seg img with
+  | None => false
+  | Some s =>
+      (0 <? p_filesz (si_seg s)) && (ehdr_size (si_is64 s) <=? p_offset (si_seg s)) &&
+      forallb (foreign_dynsec_ok (si_phdrs s) (si_shdrs s)) (si_shdrs s) &&
+      forallb (fun e => negb (string_tag (spec_is_solaris (e_machine (si_eh s)) (e_osabi (si_eh s))) (fst e)) ||
+                        match str_at (seg_strtab s img) (snd e) with Some _ => true | None => false end)
+              (si_entries s)
+  end.
